@@ -22,6 +22,20 @@ class _Unk(object):
 
 
 UNK = _Unk()
+
+
+class _Raises(object):
+    """Evaluation of the expression raises (e.g. KeyError on a folded
+    table): control reaches neither branch of a test."""
+
+    def __repr__(self):
+        return 'RAISES'
+
+    def __bool__(self):
+        raise TypeError('RAISES has no truth value')
+
+
+RAISES = _Raises()
 OTHER = '<other>'     # any value outside the enumerated domain
 OBJ = '<object>'      # some truthy value outside the enumerated domain
 
@@ -58,6 +72,7 @@ class StateDom(object):
         self.state_domain = self.ALL + (None,)
         self._depth = 0
         self._textkeys = False
+        self._ghost = set()
         self._alias = {}
         self._textcache = {}
 
@@ -109,6 +124,8 @@ class StateDom(object):
         return d
 
     def truth(self, v):
+        if v is RAISES:
+            return RAISES
         if v is UNK:
             return UNK
         if isinstance(v, str) and v == OTHER:
@@ -148,9 +165,26 @@ class StateDom(object):
             return vals
         if isinstance(e, ast.UnaryOp) and isinstance(e.op, ast.Not):
             t = self.truth(self.ev(e.operand, env, frame))
+            if t is RAISES:
+                return RAISES
             return UNK if t is UNK else (not t)
         if isinstance(e, ast.BoolOp):
-            ts = [self.truth(self.ev(v, env, frame)) for v in e.values]
+            ts = []
+            for v in e.values:
+                t = self.truth(self.ev(v, env, frame))
+                if t is RAISES:
+                    # reached only if the earlier operands did not decide
+                    if isinstance(e.op, ast.And) and any(
+                            x is False for x in ts):
+                        break
+                    if isinstance(e.op, ast.Or) and any(
+                            x is True for x in ts):
+                        break
+                    if any(x is UNK for x in ts):
+                        ts.append(UNK)
+                        break
+                    return RAISES
+                ts.append(t)
             if isinstance(e.op, ast.And):
                 if any(t is False for t in ts):
                     return False
@@ -169,6 +203,8 @@ class StateDom(object):
             return self._compare(a, op, b)
         if isinstance(e, ast.IfExp):
             t = self.truth(self.ev(e.test, env, frame))
+            if t is RAISES:
+                return RAISES
             if t is UNK:
                 x = self.ev(e.body, env, frame)
                 y = self.ev(e.orelse, env, frame)
@@ -187,15 +223,21 @@ class StateDom(object):
         if isinstance(e, ast.Subscript):
             base = self.ev(e.value, env, frame)
             idx = self.ev(e.slice, env, frame)
-            if base is UNK or idx is UNK or idx == OTHER:
+            if base is RAISES or idx is RAISES:
+                return RAISES
+            if base is UNK or idx is UNK or _is(idx, (OTHER, OBJ)):
                 return UNK
             try:
                 return base[idx]
+            except (KeyError, IndexError):
+                return RAISES
             except Exception:
                 return UNK
         return UNK
 
     def _compare(self, a, op, b):
+        if a is RAISES or b is RAISES:
+            return RAISES
         if isinstance(op, (ast.Is, ast.IsNot, ast.Eq, ast.NotEq)):
             if a is UNK or b is UNK:
                 return UNK
@@ -347,6 +389,8 @@ class StateDom(object):
                 return self.ev(st.value, env, fr)
             if isinstance(st, ast.If):
                 t = self.truth(self.ev(st.test, env, fr))
+                if t is RAISES:
+                    return RAISES
                 if t is UNK:
                     return UNK
                 if t:
@@ -363,7 +407,7 @@ class StateDom(object):
 
     # ---- dataflow -----------------------------------------------------
     def analyze(self, cfg, func, variables, init=None, kill=None,
-                assume=None, alias=None, block=None):
+                assume=None, alias=None, block=None, ghost=None):
         """Forward dataflow.  variables: list of (key, domain) where key is
         the dotted text of an access path / local name in `func`.
         Returns {node.id: set(valuation tuples)} (valuations before the
@@ -371,6 +415,7 @@ class StateDom(object):
         valuation at a node (used for caller-side preconditions)."""
         keys = [k for k, _d in variables]
         doms = [tuple(d) for _k, d in variables]
+        self._ghost = set(ghost or ())
         self._alias = dict(alias or {})
         self._textkeys = any(('(' in k or '[' in k) for k in keys) or \
             bool(self._alias)
@@ -407,6 +452,8 @@ class StateDom(object):
             for v in vals:
                 env = dict(zip(keys, v))
                 t = self.truth(self.ev(n.ast, env, frame))
+                if t is RAISES:
+                    continue
                 if t is UNK or t:
                     tset.add(v)
                 if t is UNK or not t:
@@ -419,6 +466,8 @@ class StateDom(object):
             for v in vals:
                 env = dict(zip(keys, v))
                 t = self.truth(self.ev(n.ast.test, env, frame))
+                if t is RAISES:
+                    continue
                 if t is UNK or t:
                     keep.add(v)
             return {None: keep, 'exc': vals}
@@ -471,13 +520,17 @@ class StateDom(object):
                             havoc.add(k)
                 if kill is not None:
                     havoc |= set(kill(sub) or ())
+        if self._ghost:
+            havoc -= self._ghost
+            for k in self._ghost:
+                newvals.pop(k, None)
         if not havoc and not newvals:
             return {v}
         choices = []
         for k, d, cur in zip(keys, doms, v):
             if k in newvals:
                 nv = newvals[k]
-                if nv is UNK:
+                if nv is UNK or nv is RAISES:
                     choices.append(d)
                 elif nv in d:
                     choices.append((nv,))
